@@ -94,11 +94,13 @@ func TestTorture(t *testing.T) {
 		}
 	}
 	want := map[string][]string{
-		"GoForms":    {"desc=x/7/true,lit=1,ten=55,work=13"},
-		"SendSelect": {"nil-blocks,sent=2 len=2 cap=2,sum=1"},
-		"Lost":       {"err", "nil"},
-		"MapOrder":   {"a1b2c3/first=a", "a1b2c3/first=b", "a1b2c3/first=c"},
-		"Pipes":      {"read=4 last=unexpected EOF shared=10"},
+		"GoForms":     {"desc=x/7/true,lit=1,ten=55,work=13"},
+		"SendSelect":  {"nil-blocks,sent=2 len=2 cap=2,sum=1"},
+		"Lost":        {"err", "nil"},
+		"MapOrder":    {"a1b2c3/first=a", "a1b2c3/first=b", "a1b2c3/first=c"},
+		"Pipes":       {"read=4 last=unexpected EOF shared=10"},
+		"TimerSelect": {"timeout", "timer", "work=1"},
+		"CtxTimeout":  {"alive", "done:context deadline exceeded"},
 	}
 	for name, w := range want {
 		got := append([]string{}, sched[name]...)
